@@ -14,3 +14,14 @@ package ast
 //@   loop 0
 //@     invariant fresh(q)
 //@     noterm
+
+// C13: printing a map literal and listing its children must not depend on map
+// iteration order (error messages and placeholder identity use this text).
+//@ func (*MapLiteralNode).String
+//@   props C13 C17
+//@   nosafety
+//@   modifies *
+//@ func (*MapLiteralNode).Children
+//@   props C13
+//@   nosafety
+//@   modifies *
